@@ -12,6 +12,7 @@
 import Driver.Proto
 import Amoco.Model.SemDsl
 import Generated.RvSem
+import Amoco.Model.Flags
 
 open Lean Amoco.Rv
 
@@ -121,6 +122,56 @@ def opGenEq : Json :=
               ("extra32", jlist Json.str Generated.Rv.rv32_extra), ("extra64", jlist Json.str Generated.Rv.rv64_extra),
               ("notes", jlist Json.str (Generated.Rv.rv32_notes ++ Generated.Rv.rv64_notes))]
 
+/-! ### x86 flag helpers -/
+
+open Amoco.Flags in
+def opFlags (o : String) (j : Json) : Except String Json := do
+  if o == "flags.awc" then
+    let n ← getNat j "n"
+    let x := BitVec.ofNat n (← getNat j "x")
+    let y := BitVec.ofNat n (← getNat j "y")
+    let c ← getBool j "c"
+    let r := if (← getBool j "sub") then subWithBorrow x y c else addWithCarry x y c
+    return Json.arr #[jnat r.res.toNat, Json.bool r.carry, Json.bool r.overflow]
+  else if o == "flags.half" then
+    let n ← getNat j "n"
+    let x := BitVec.ofNat n (← getNat j "x")
+    let y := BitVec.ofNat n (← getNat j "y")
+    let c ← getBool j "c"
+    return Json.bool (if (← getBool j "sub") then halfborrow x y c else halfcarry x y c)
+  else if o == "flags.parity8" then
+    let x := BitVec.ofNat 8 (← getNat j "x")
+    return Json.arr #[Json.bool (parity8 x), Json.bool (evenParity x)]
+  else if o == "flags.cond" then
+    let f : Fl := ⟨← getBool j "cf", ← getBool j "pf", ← getBool j "zf", ← getBool j "sf", ← getBool j "of"⟩
+    return Json.bool (cond (← getNat j "cc") f)
+  else if o == "flags.cmp" then
+    let n ← getNat j "n"
+    let a := BitVec.ofNat n (← getNat j "a")
+    let b := BitVec.ofNat n (← getNat j "b")
+    let f := cmpFlags a b
+    return Json.arr #[Json.bool f.cf, Json.bool f.pf, Json.bool f.zf, Json.bool f.sf, Json.bool f.of]
+  else if o == "flags.writereg" then
+    return jnat (writeReg (BitVec.ofNat 64 (← getNat j "old")) (← getNat j "size") (BitVec.ofNat 64 (← getNat j "v"))).toNat
+  else if o == "flags.rot" then
+    let n ← getNat j "n"
+    let x := BitVec.ofNat n (← getNat j "x")
+    let k ← getNat j "k"
+    let left ← getBool j "left"
+    if (← getBool j "withcarry") then
+      let c ← getBool j "c"
+      let r := if left then rolWithCarry x k c else rorWithCarry x k c
+      return Json.arr #[jnat r.1.toNat, Json.bool r.2]
+    else
+      return Json.arr #[jnat (if left then rol x k else ror x k).toNat]
+  else if o == "flags.shcf" then
+    let n ← getNat j "n"
+    let a := BitVec.ofNat n (← getNat j "a")
+    let k ← getNat j "count"
+    let kind ← getStr j "kind"
+    return Json.bool (if kind == "shl" then shlCF a k else if kind == "shr" then shrCF a k else sarCF a k)
+  else throw s!"unknown op {o}"
+
 def handle (j : Json) : Json :=
   match getStr j "op" with
   | .error e => jerr e
@@ -129,6 +180,7 @@ def handle (j : Json) : Json :=
       if o == "rv.decode" then opDecode j
       else if o == "rv.step" then opStep j
       else if o == "rv.gen_eq" then pure opGenEq
+      else if o.startsWith "flags." then opFlags o j
       else throw s!"unknown op {o}"
     match r with
     | .ok v => v
